@@ -84,6 +84,7 @@ def _isinst(I, v, t):
         raise Unsupported('isinstance against %r' % (t,))
     n = n.split('.')[-1]
     if n == 'object': return True
+    if n == 'type': return isinstance(v, ClassInfo)
     if n == 'bool': return isinstance(v, (bool, SBool))
     if n == 'int': return isinstance(v, (int, SInt, SBool))
     if n == 'float': return isinstance(v, float) or (isinstance(v, Opaque) and v.what == 'float')
